@@ -207,6 +207,9 @@ bool SectionHDF5::deleteSection(const string &name_or_id) {
                 section.deleteSection(child.id());
             }
             // if hasSection is true then section_group always exists
+            // the victim's own section link goes with it; removed first, because a section linked to itself
+            // would otherwise keep itself alive after it was unlinked (handles stay valid, the group stays in the file)
+            section.link(nix::none);
             deleted = g->removeAllLinks(section.name());
         }
     }
